@@ -126,6 +126,155 @@ Definition compatible (ss : list scope_t) (by_ : bool) (ls : list str) : bool :=
   then forallb (fun s : scope_t => if snd s then subset ls (fst s) else disjoint ls (fst s)) ss
   else forallb (fun s : scope_t => negb (snd s) && subset (fst s) ls) ss.
 
+(* ---- a mini-PromQL: instant-vector semantics at one evaluation time ---- *)
+Definition series := list label.             (* sorted by name, includes __name__, no empty values *)
+Definition sample := (series * Z)%type.
+Definition vector := list sample.
+
+Inductive matcher := MEq (n v : str) | MNeq (n v : str).
+
+Definition lget (n : str) (ls : series) : str :=
+  match find (fun l => str_eqb (fst l) n) ls with Some l => snd l | None => [] end.
+
+Definition matches_m (m : matcher) (ls : series) : bool :=
+  match m with
+  | MEq n v => str_eqb (lget n ls) v
+  | MNeq n v => negb (str_eqb (lget n ls) v)
+  end.
+
+Inductive aggop := ASum | ACount | AMin | AMax.
+
+Inductive binop := BAdd | BSub | BMul.
+
+Inductive qexpr :=
+| QSel (ms : list matcher)
+| QAgg (op : aggop) (without : bool) (g : list str) (e : qexpr)
+| QBin (op : binop) (on : bool) (ls : list str) (l r : qexpr).  (* one-to-one: l op on(ls)/ignoring(ls) r *)
+
+(* labels of an aggregation's output series: by (g) keeps g; without (g) drops g and the metric name.
+   The same function gives the match signature of a binary operation: on(ls) = keep false ls,
+   ignoring(ls) = keep true ls *)
+Definition keep (wo : bool) (g : list str) (ls : series) : series :=
+  if wo then filter (fun l => negb (mem (fst l) g) && negb (str_eqb (fst l) s_name)) ls
+  else filter (fun l => mem (fst l) g) ls.
+
+Definition label_eqb (a b : label) : bool := str_eqb (fst a) (fst b) && str_eqb (snd a) (snd b).
+Definition series_eqb : series -> series -> bool := list_eqb label_eqb.
+
+(* distinct keys in order of first occurrence *)
+Fixpoint nodup_keys (ks : list series) : list series :=
+  match ks with
+  | [] => []
+  | k :: r => k :: filter (fun k' => negb (series_eqb k k')) (nodup_keys r)
+  end.
+
+Definition agg_vals (op : aggop) (vs : list Z) : Z :=
+  match op with
+  | ASum => fold_right Z.add 0%Z vs
+  | ACount => Z.of_nat (length vs)
+  | AMin => match vs with [] => 0%Z | v :: r => fold_right Z.min v r end
+  | AMax => match vs with [] => 0%Z | v :: r => fold_right Z.max v r end
+  end.
+
+Definition aggregate (op : aggop) (wo : bool) (g : list str) (v : vector) : vector :=
+  map (fun k => (k, agg_vals op (map snd (filter (fun x => series_eqb (keep wo g (fst x)) k) v))))
+      (nodup_keys (map (fun x => keep wo g (fst x)) v)).
+
+(* VectorBinop, one-to-one *)
+Fixpoint has_dup (ks : list series) : bool :=
+  match ks with
+  | [] => false
+  | k :: r => existsb (series_eqb k) r || has_dup r
+  end.
+
+Definition bin_val (op : binop) (a b : Z) : Z :=
+  match op with BAdd => (a + b)%Z | BSub => (a - b)%Z | BMul => (a * b)%Z end.
+
+Definition drop_name (s : series) : series := filter (fun l => negb (str_eqb (fst l) s_name)) s.
+
+Definition bin_eval (op : binop) (on : bool) (ls : list str) (vl vr : vector) : option vector :=
+  let sig := fun x : sample => keep (negb on) ls (fst x) in
+  match vl, vr with
+  | [], _ => Some []                     (* short-circuit: nothing is going to match *)
+  | _, [] => Some []
+  | _, _ =>
+      if has_dup (map sig vr) then None   (* duplicate series on the right-hand side *)
+      else
+        let matched := filter (fun x => existsb (fun y => series_eqb (sig y) (sig x)) vr) vl in
+        if has_dup (map sig matched) then None   (* many-to-one matching must be explicit *)
+        else Some (map (fun x =>
+                          (drop_name (sig x),
+                           bin_val op (snd x)
+                             (match find (fun y => series_eqb (sig y) (sig x)) vr with
+                              | Some y => snd y | None => 0%Z end))) matched)
+  end.
+
+(* None = the engine returns an error *)
+Fixpoint qeval (e : qexpr) (D : vector) : option vector :=
+  match e with
+  | QSel ms => Some (filter (fun x => forallb (fun m => matches_m m (fst x)) ms) D)
+  | QAgg op wo g e' => option_map (aggregate op wo g) (qeval e' D)
+  | QBin op on ls l r =>
+      match qeval l D, qeval r D with
+      | Some vl, Some vr => bin_eval op on ls vl vr
+      | _, _ => None
+      end
+  end.
+
+(* what the analyzer sees of such a query *)
+Fixpoint erase (e : qexpr) : expr :=
+  match e with
+  | QSel _ => ELeaf
+  | QAgg _ wo g e' => EAgg wo g None (erase e')
+  | QBin _ on ls l r => EBin (Some (on, ls)) (erase l) (erase r)
+  end.
+
+(* series stored on shard i of n (the store applies the shard matcher to every series) *)
+Definition in_shard (H : str -> N) (by_ : bool) (set : list str) (n i : N) (x : sample) : bool :=
+  matches H by_ set n i (fst x).
+
+Fixpoint all_some {A} (l : list (option A)) : option (list A) :=
+  match l with
+  | [] => Some []
+  | None :: _ => None
+  | Some x :: r => option_map (cons x) (all_some r)
+  end.
+
+Definition shard_results (H : str -> N) (by_ : bool) (set : list str) (n : N) (e : qexpr) (D : vector)
+  : list (option vector) :=
+  map (fun i => qeval e (filter (in_shard H by_ set n (N.of_nat i)) D)) (seq 0 (N.to_nat n)).
+
+(* per-shard evaluation, results concatenated (the frontend merges the shard responses);
+   None when a shard returns an error *)
+Definition sharded (H : str -> N) (by_ : bool) (set : list str) (n : N) (e : qexpr) (D : vector) : option vector :=
+  option_map (@concat sample) (all_some (shard_results H by_ set n e D)).
+
+(* the sharding labels survive every aggregation and every binary operation of e (with the
+   metric name, which without() aggregations and binary operations drop) *)
+Fixpoint sound_for (by_ : bool) (set : list str) (e : qexpr) : bool :=
+  match e with
+  | QSel _ => true
+  | QAgg _ wo g e' =>
+      (if by_ then (if wo then disjoint set (s_name :: g) else subset set g)
+       else wo && subset (s_name :: g) set)
+      && sound_for by_ set e'
+  | QBin _ on ls l r =>
+      (if by_ then (if on then subset set ls && negb (mem s_name set) else disjoint set (s_name :: ls))
+       else negb on && subset (s_name :: ls) set)
+      && sound_for by_ set l && sound_for by_ set r
+  end.
+
+(* does some node of e drop the metric name from its output? *)
+Fixpoint drops_name (e : qexpr) : bool :=
+  match e with
+  | QSel _ => false
+  | QAgg _ wo _ e' => wo || drops_name e'
+  | QBin _ _ _ _ _ => true
+  end.
+
+Definition name_ok (by_ : bool) (set : list str) (e : qexpr) : bool :=
+  if by_ then negb (drops_name e) || negb (mem s_name set) else mem s_name set.
+
 (* ---- cases ---- *)
 Fixpoint lookup_hash (tbl : list (str * N)) (b : str) : option N :=
   match tbl with
@@ -135,10 +284,26 @@ Fixpoint lookup_hash (tbl : list (str * N)) (b : str) : option N :=
 
 Inductive case :=
 | CShard (by_ : bool) (set : list str) (n : N) (ls : list label) (tbl : list (str * N)) (obs : list bool)
-| CAnalyze (e : expr) (obs_shardable obs_by : bool) (obs_labels : list str).
+| CAnalyze (e : expr) (obs_shardable obs_by : bool) (obs_labels : list str)
+| CEval (e : qexpr) (D : vector) (n : N) (by_ : bool) (set : list str) (tbl : list (str * N))
+        (unsharded : option vector) (shards : list (option vector)).
 
 Definition H_of (tbl : list (str * N)) (b : str) : N :=
   match lookup_hash tbl b with Some v => v | None => 0%N end.
+
+Definition sample_eqb (a b : sample) : bool := series_eqb (fst a) (fst b) && Z.eqb (snd a) (snd b).
+
+(* the same samples, order ignored (lengths compared so that a duplicate is noticed) *)
+Definition same_vector (a b : vector) : bool :=
+  Nat.eqb (length a) (length b)
+  && forallb (fun x => existsb (sample_eqb x) b) a && forallb (fun x => existsb (sample_eqb x) a) b.
+
+Definition same_result (a b : option vector) : bool :=
+  match a, b with
+  | Some x, Some y => same_vector x y
+  | None, None => true
+  | _, _ => false
+  end.
 
 Definition corr_ok (c : case) : bool :=
   match c with
@@ -152,6 +317,15 @@ Definition corr_ok (c : case) : bool :=
       let a := analyze e in
       Bool.eqb (shardable a) sh
       && (if sh then match a with St b l => Bool.eqb b by_ && set_eqb l ls | SNone => false end else true)
+  | CEval e D n by_ set tbl unsharded shards =>
+      (* the analyzer's answer, every hash value needed, the engine's unsharded result and the
+         engine's result on every shard *)
+      (match analyze (erase e) with St b l => shardable (St b l) && Bool.eqb b by_ && set_eqb l set | SNone => false end)
+      && forallb (fun x => match lookup_hash tbl (shard_buf by_ set (fst x)) with Some _ => true | None => false end) D
+      && same_result (qeval e D) unsharded
+      && Nat.eqb (length shards) (N.to_nat n)
+      && forallb (fun ir => same_result (qeval e (filter (in_shard (H_of tbl) by_ set n (N.of_nat (fst ir))) D)) (snd ir))
+                 (combine (seq 0 (N.to_nat n)) shards)
   end.
 
 Definition count_true (l : list bool) : nat := length (filter (fun b => b) l).
@@ -160,4 +334,10 @@ Definition pred_ok (c : case) : bool :=
   match c with
   | CShard _ _ _ _ _ obs => Nat.eqb (count_true obs) 1
   | CAnalyze e sh by_ ls => if sh then compatible (all_scopes e) by_ ls else true
+  | CEval _ _ _ _ _ _ unsharded shards =>
+      (* when the unsharded evaluation succeeds, every shard succeeds and the merged result is the same *)
+      match unsharded with
+      | None => true
+      | Some u => match all_some shards with Some rs => same_vector (concat rs) u | None => false end
+      end
   end.
